@@ -724,6 +724,28 @@ func (r *s1run) step(w locSet, ins ssa.Instruction) {
 		fn := x.Fn.(*ssa.Function)
 		for i, b := range x.Bindings {
 			r.bindArg(w, fn, -1-i, b, x.Pos(), true)
+			// a captured local variable that holds a slice of a tracked location: the closure reads the
+			// location's elements through it unless its body only writes them
+			if al, ok := b.(*ssa.Alloc); ok {
+				if pt, ok := al.Type().Underlying().(*types.Pointer); ok {
+					if _, isSl := pt.Elem().Underlying().(*types.Slice); isSl {
+						for _, ref := range *al.Referrers() {
+							st, ok := ref.(*ssa.Store)
+							if !ok || st.Addr != ssa.Value(al) {
+								continue
+							}
+							if path, k := r.vpath(st.Val, 0); k == 3 {
+								loc, _ := locOf(path)
+								ss := r.s.sliceSummary(fn, -1-i)
+								if ss.reads {
+									r.read(w, loc+"[]", x.Pos(), "slice captured by closure "+FnName(fn))
+								}
+								r.mayW[loc+"[]"] = true
+							}
+						}
+					}
+				}
+			}
 		}
 	case *ssa.Return:
 	case *ssa.Range, *ssa.Lookup:
@@ -1471,6 +1493,16 @@ func (s *s1) sliceSummary(fn *ssa.Function, param int) *sliceSum {
 						changed = true
 					}
 				case *ssa.UnOp:
+					// the captured variable itself (a cell holding the slice): its load is the slice
+					if x.Op == token.MUL && x.X == pv && param < 0 {
+						if pt, isPtr := pv.Type().Underlying().(*types.Pointer); isPtr {
+							if _, isSl := pt.Elem().Underlying().(*types.Slice); isSl {
+								derived[v] = true
+								changed = true
+								continue
+							}
+						}
+					}
 					// *ptrToArray
 					if x.Op == token.MUL && derived[x.X] {
 						if _, isPtr := x.X.Type().Underlying().(*types.Pointer); isPtr {
